@@ -10,6 +10,7 @@ import (
 	"encoding/hex"
 	"encoding/json"
 	"fmt"
+	"reflect"
 	"sort"
 	"strconv"
 	"strings"
@@ -65,12 +66,12 @@ func numTok(v interface{}) (string, bool) {
 // that they can never compare equal to a model value.
 func enc(v interface{}) string {
 	var sb strings.Builder
-	encTo(&sb, v, 0)
+	encTo(&sb, v, 0, map[uintptr]bool{})
 	return sb.String()
 }
 
 // encTo: depth guards against cyclic values (an aliasing defect can make a Map contain itself).
-func encTo(sb *strings.Builder, v interface{}, depth int) {
+func encTo(sb *strings.Builder, v interface{}, depth int, onPath map[uintptr]bool) {
 	if depth > 300 {
 		sb.WriteString("?cyclic-or-too-deep")
 		return
@@ -89,26 +90,36 @@ func encTo(sb *strings.Builder, v interface{}, depth int) {
 	case []interface{}:
 		sb.WriteString("[ ")
 		for _, e := range x {
-			encTo(sb, e, depth+1)
+			encTo(sb, e, depth+1, onPath)
 			sb.WriteString(" ")
 		}
 		sb.WriteString("]")
 	case map[string]interface{}:
-		encMap(sb, x, depth)
+		encMap(sb, x, depth, onPath)
 	default:
 		if t, ok := numTok(v); ok {
 			sb.WriteString(t)
 			return
 		}
 		if m, ok := asMap(v); ok {
-			encMap(sb, m, depth)
+			encMap(sb, m, depth, onPath)
 			return
 		}
 		sb.WriteString(fmt.Sprintf("?%T", v))
 	}
 }
 
-func encMap(sb *strings.Builder, x map[string]interface{}, depth int) {
+// onPath: maps currently being printed (cycle detection by identity).
+func encMap(sb *strings.Builder, x map[string]interface{}, depth int, encOnPath map[uintptr]bool) {
+	id := reflect.ValueOf(x).Pointer()
+	if x != nil {
+		if encOnPath[id] {
+			sb.WriteString("?cycle")
+			return
+		}
+		encOnPath[id] = true
+		defer delete(encOnPath, id)
+	}
 	ks := make([]string, 0, len(x))
 	for k := range x {
 		ks = append(ks, hx(k))
@@ -118,7 +129,7 @@ func encMap(sb *strings.Builder, x map[string]interface{}, depth int) {
 	for _, hk := range ks {
 		b, _ := hex.DecodeString(hk)
 		sb.WriteString("k" + hk + " ")
-		encTo(sb, x[string(b)], depth+1)
+		encTo(sb, x[string(b)], depth+1, encOnPath)
 		sb.WriteString(" ")
 	}
 	sb.WriteString("}")
